@@ -117,6 +117,7 @@ class Recorder:
         self.file_ids = {}         # relative value-file name -> id (first appearance)
         self.on_action = None      # hook(kind, detail) called BEFORE the action runs
         self.on_post = None        # hook(kind, detail) called AFTER a COMMIT / ROLLBACK returned (scheduler only)
+        self.on_raw = None         # hook(sql) called before EVERY statement, set-up statements included
         self.enabled = True
 
     @property
@@ -180,6 +181,8 @@ class ConnProxy:
 
     def execute(self, sql, *args):
         rec = self._rec
+        if rec.on_raw is not None:
+            rec.on_raw(sql)
         params = args[0] if args else ()
         sid = classify(sql, params)
         if sid is None or not rec.enabled:
